@@ -104,3 +104,59 @@ def _(c):
     c.requires(lambda a: V.ns(a.duration) != 0)
     c.returns(lambda a, r, W: V.inst_ns(W(a.self, "_FakeClock__now")) == V.inst_ns(now(a.self)))
     c.raises(*RANGE_ERR)
+
+
+# ------------------------------------------------------------------------------------------ ZonedClock and SystemClock
+ZC = "pyoda_time._zoned_clock:ZonedClock"
+
+
+def ZonedClockG() -> Obj:
+    from pyoda_time import CalendarSystem, DateTimeZone
+
+    return Obj(ZC, {"_ZonedClock__clock": FakeClockG(), "_ZonedClock__zone": Const(lambda: DateTimeZone.utc), "_ZonedClock__calendar": Const(lambda: CalendarSystem.iso)})
+
+
+@contract(ZC + ".get_current_instant", "C19", name="ZonedClock.get_current_instant is the wrapped clock's reading (and advances the wrapped clock exactly as the clock itself would)")
+def _(c):
+    c.arg("self", ZonedClockG())
+    _mut(c)
+    inner = lambda a: V.fld(a.self, "_ZonedClock__clock")  # noqa: E731
+    nxt = lambda a: V.inst_ns(now(inner(a))) + V.ns(aa(inner(a)))  # noqa: E731
+    c.returns(lambda a, r, W: And(V.inst_ns(r) == V.inst_ns(now(inner(a))), V.is_instant_of(W(inner(a), "_FakeClock__now"), nxt(a))), when=lambda a: V.inst_in_range(nxt(a)))
+    c.raises(*RANGE_ERR, when=lambda a: Not(V.inst_in_range(nxt(a))))
+
+
+@contract(ZC, "C19", name="ZonedClock(clock, zone, calendar) keeps its three parts; None is refused")
+def _(c):
+    from pyoda_time import CalendarSystem, DateTimeZone
+    from pyvc.contracts import OneOf
+
+    c.arg("clock", OneOf(lambda: [None, "clock"])).arg("zone", OneOf(lambda: [None, DateTimeZone.utc])).arg("calendar", OneOf(lambda: [None, CalendarSystem.iso]))
+    c.crosscheck = 0
+    ok = lambda a: a.clock is not None and a.zone is not None and a.calendar is not None  # noqa: E731
+    c.returns(lambda a, r: And(V.fld(r, "_ZonedClock__clock") is a.clock, V.fld(r, "_ZonedClock__zone") is a.zone, V.fld(r, "_ZonedClock__calendar") is a.calendar), when=ok)
+    c.raises(TypeError, ValueError, when=lambda a: not ok(a))
+
+
+def _sys_setup(eng):
+    """A12: time.time_ns() is the operating-system time: the ghost input `t`, an arbitrary non-negative integer"""
+    import time
+
+    def time_ns(eng):
+        eng.assumptions_used.add("A12")
+        return eng.contract_ns.t
+
+    eng.models[time.time_ns] = time_ns
+
+
+@contract("pyoda_time._system_clock:SystemClock.get_current_instant", "C19", name="SystemClock.get_current_instant is the Unix epoch plus the operating system's nanosecond count (or raises beyond the range of Instant)")
+def _(c):
+    from pyoda_time import SystemClock
+
+    c.arg("self", Const(lambda: SystemClock.instance)).ghost("t", Int(0, None))
+    c.setup = _sys_setup
+    c.crosscheck = 0
+    c.replayable = False
+    c.allow_mutation = lambda obj, n: "'item'" in str(n)  # PyodaConstants.UNIX_EPOCH may fill the ISO year cache (transparent: C13)
+    c.returns(lambda a, r: V.is_instant_of(r, a.t), when=lambda a: V.inst_in_range(a.t))
+    c.raises(*RANGE_ERR, when=lambda a: Not(V.inst_in_range(a.t)))
